@@ -613,7 +613,7 @@ func RunIntegWorld(c *Ctl, prof *IntegProfile, w *IntegWorld, res *RunResult) *i
 
 func envFilter(name string) bool {
 	return strings.HasPrefix(name, "VS_") || strings.HasSuffix(name, "_OUTPUT") || name == "TASK_NAME" || name == "ARGS" ||
-		name == "EventName" || name == "EventPath" || strings.HasPrefix(name, "EXP_")
+		name == "EventName" || name == "EventPath" || strings.HasPrefix(name, "EXP_") || name == "PWD"
 }
 
 // eligible returns the parks the controller may release now.
